@@ -157,6 +157,9 @@ func (c16) Run(t *tape.Tape, st *Stats) *Violation {
 		// a valid date-time in most runs so that CreatedAt is compared
 		if t.Chance(3, 4) {
 			y := 1 + t.Intn(9999)
+			if t.Chance(1, 4) {
+				y = 1 + t.Intn(65535) // uInt16Number: the whole range is a year
+			}
 			mo := 1 + t.Intn(12)
 			refmodel.PutBE(hdr, 24, 2, uint64(y))
 			refmodel.PutBE(hdr, 26, 2, uint64(mo))
